@@ -156,7 +156,10 @@ pub fn check_total<T: std::fmt::Debug>(ctx: &mut Ctx, x: &Exec<T>, tag: &str) ->
         Outcome::Panic { msg, loc } => {
             let file = loc.rsplit_once(':').map_or(loc.as_str(), |p| p.0);
             ctx.violation(
-                format!("panic:{tag}:{file}:{}", panic_kind(msg)),
+                {
+                    let _ = tag;
+                    format!("panic:{file}:{}", panic_kind(msg))
+                },
                 &x.choices(),
                 format!("query panicked at {loc}"),
                 format!("panic: {msg}"),
